@@ -68,10 +68,26 @@ def run(ctx, prop=PROP):
         # every call the driver provokes is inside the preconditions on a tree where the links hold; a call outside
         # (e.g. a region that is not what walk + fill must leave) is visible here and in the failing clause upstream
         ctx.notes.append("calls outside a precondition: %r" % outside)
+    sym = None
+    if prop == "C02":
+        # marginal differencing of the REAL function on symbolic cell contents: all data, bounded shapes (cv/kvc/symdiff.py)
+        from ..kvc import symdiff
+
+        res, secs = symdiff.run(ctx.tier)
+        badsym = [r for r in res if r[1] != "unsat"]
+        for name, verdict, detail in badsym[:3]:
+            ctx.violation(core.Violation("C02", name, "the real _compute_common_cells_from_marginal_diffs, run on symbolic cell contents, does not return the "
+                                         "per-cell value: %r" % (detail,), input={"config": name.split("[", 1)[1].rstrip("]"), "cell": detail},
+                                         cls={"function": "_compute_common_cells_from_marginal_diffs"}))
+        sym = {"what": "real marginal differencing executed on z3 terms (object-dtype region): result == per-cell symbol for ALL cell contents; bounded in shape",
+               "obligations": len(res), "discharged": len(res) - len(badsym), "solver_s": round(secs, 2),
+               "samples": [r[0] for r in res[:: max(1, len(res) // 5)]][:6]}
     runner.report(ctx, mon, totals, lambda ob: contracts_cube_count.property_of(ob) == prop, RULES[prop],
                   expect_clauses=EXPECT[prop], exhaustive=not thorough,
                   extra_cov={"cases_by_family": fams, "cases": int(totals["jobs"]), "parts": PARTS[prop],
                              "sampled_families": ["4d-sampled"] if thorough else []})
+    if sym:
+        ctx.coverage["proved_subobligations"] = sym
     ctx.assumptions += [
         "bounded: holds on the enumerated cube scope only (engine C is the bounded stand-in, not a proof)",
         "precondition from the code: categories and common values are non-negative and below the extent of their axis "
